@@ -1,5 +1,6 @@
 """tx_grammar: regenerate lean/Lcapy/Generated/Grammar.lean from /repo/lcapy/grammar.py
-(and the suffix table of /repo/lcapy/valueparser.py).
+(and the suffix table of /repo/lcapy/valueparser.py, and which repairs of the printer
+`mnacpts.Cpt._arg_format` / `_netmake1` the source contains).
 
 Reads the *source text* with Python's `ast`: the module-level string constants `rules`,
 `params`, `delimiters`, `comments` of grammar.py and the dict literal `suffixes` inside
@@ -59,6 +60,57 @@ def _suffixes(src):
     return None, ['suffixes dict not found']
 
 
+def _printer_fixes(src):
+    """Which of the repairs of the findings C06-e / C06-a / C06-b the printer in mnacpts.py contains
+    (read from the AST of `Cpt._arg_format` / `Cpt._netmake1`; anything unrecognised counts as absent and
+    is then caught by the print correspondence)."""
+    tree = ast.parse(src)
+    funcs = {}
+    for node in ast.walk(tree):
+        if isinstance(node, ast.ClassDef) and node.name == 'Cpt':
+            for f in node.body:
+                if isinstance(f, ast.FunctionDef) and f.name in ('_arg_format', '_netmake1'):
+                    funcs[f.name] = f
+    fix_e = fix_a = fix_b = False
+    notes = []
+    af = funcs.get('_arg_format')
+    if af is None:
+        notes.append('_arg_format not found')
+    else:
+        returns_unchanged_if_brace = False
+        braces_bracket_start = False
+        for n in ast.walk(af):
+            if isinstance(n, ast.If):
+                test = ast.unparse(n.test)
+                body = ' '.join(ast.unparse(b) for b in n.body)
+                if "startswith('{')" in test and body.strip() == 'return string':
+                    returns_unchanged_if_brace = True
+                if ("string == ''" in test and "in '{\"'" in test and "'=' in string" in test
+                        and body.strip() == "return '{' + string + '}'"):
+                    braces_bracket_start = True
+                if '.keywords(self.type)' in test and 'string.lower()' in test and body.strip() == "return '{' + string + '}'":
+                    fix_a = True
+        fix_e = braces_bracket_start and not returns_unchanged_if_brace
+        if not returns_unchanged_if_brace and not braces_bracket_start:
+            notes.append('_arg_format: unrecognised handling of a leading brace')
+    nm = funcs.get('_netmake1')
+    if nm is None:
+        notes.append('_netmake1 not found')
+    else:
+        seen = False
+        for n in ast.walk(nm):
+            if isinstance(n, ast.If) and ' '.join(ast.unparse(b) for b in n.body).strip() == 'fmtargs = []':
+                seen = True
+                test = ast.unparse(n.test)
+                if 'default_is_name(relname, keyword)' in test and 'fmtargs[0] == relname' in test:
+                    fix_b = True
+                elif test.strip() != 'len(fmtargs) == 1 and fmtargs[0] == relname':
+                    notes.append('_netmake1: unrecognised elision test: ' + test[:60])
+        if not seen:
+            notes.append('_netmake1: elision of the name default not found')
+    return (fix_e, fix_a, fix_b), notes
+
+
 def lchar(c):
     if c == '\t':
         return "'\\t'"
@@ -114,6 +166,8 @@ def generate(repo):
             rules.append((cls, fields))
         except Exception:
             unparsed.append('rule-line:' + line[:40])
+    msrc = open(os.path.join(repo, 'lcapy', 'mnacpts.py')).read()
+    fixes, fnotes = _printer_fixes(msrc)
     suff, bad = _suffixes(vsrc)
     unparsed += ['suffix:' + b for b in bad]
     suff = suff or []
@@ -145,10 +199,14 @@ def generate(repo):
     L.append('/-- valueparser.value_parser: suffix character, power of ten -/')
     L.append('def suffixSrc : List (Char × Int) := [%s]' % ', '.join('(%s, %d)' % (lchar(k), e) for k, e in suff))
     L.append('')
+    L.append('/-- mnacpts.Cpt._arg_format / _netmake1: which repairs (C06-e, C06-a, C06-b) the source contains -/')
+    L.append('def printerFix : Bool × Bool × Bool := (%s, %s, %s)' % tuple('true' if x else 'false' for x in fixes))
+    L.append('')
     L.append('end Lcapy.Gen.Grammar')
     text = '\n'.join(L) + '\n'
     info = {'rules': len(rules), 'params': len(params), 'suffixes': len(suff), 'unparsed': unparsed,
-            'rule_classes': [r[0] for r in rules]}
+            'rule_classes': [r[0] for r in rules], 'printer_fixes': {'C06-e': fixes[0], 'C06-a': fixes[1], 'C06-b': fixes[2]},
+            'printer_notes': fnotes}
     return text, info
 
 
